@@ -114,6 +114,8 @@ type labTask struct {
 	ctxDoneAtEnd bool
 	secretGo     chan struct{}
 	handlerGo    chan int // reply code (0 = none)
+	replyGo      chan int // R<t>:<code>: write a reply now and keep running
+	replied      chan struct{}
 	started      chan string
 	peer         string
 }
@@ -154,7 +156,7 @@ func (l *lab) note(s string) {
 // RADIUSSecret parks the datagram goroutine until d<t>.
 func (l *lab) RADIUSSecret(ctx context.Context, remoteAddr net.Addr) ([]byte, error) {
 	l.mu.Lock()
-	t := &labTask{secretGo: make(chan struct{}), handlerGo: make(chan int, 1), started: make(chan string, 1), peer: remoteAddr.String()}
+	t := &labTask{secretGo: make(chan struct{}), handlerGo: make(chan int, 1), replyGo: make(chan int), replied: make(chan struct{}), started: make(chan string, 1), peer: remoteAddr.String()}
 	l.tasks = append(l.tasks, t)
 	idx := len(l.tasks) - 1
 	if l.serverCtx == nil {
@@ -183,7 +185,21 @@ func (l *lab) ServeRADIUS(w radius.ResponseWriter, r *radius.Request) {
 		return
 	}
 	t.started <- fmt.Sprintf("%s:%d:%s:%s:%s:%s:ctx=%v:done=%v", r.RemoteAddr.String(), r.Identifier, itoa(int(r.Code)), showAttributes(r.Attributes), hx(r.Secret), r.LocalAddr.String(), ctxOK, r.Context().Err() != nil)
-	code := <-t.handlerGo
+	var code int
+	for waiting := true; waiting; {
+		select {
+		case code = <-t.handlerGo:
+			waiting = false
+		case rc := <-t.replyGo:
+			// a handler that answers first and goes on working (accounting, logging): the request stays in flight
+			early := r.Response(radius.Code(rc))
+			early.Add(18, radius.Attribute("reply"))
+			if err := w.Write(early); err != nil {
+				l.note("write-error:" + err.Error())
+			}
+			t.replied <- struct{}{}
+		}
+	}
 	// (sampled when the handler is about to return: Shutdown cancels the contexts of running handlers)
 	select {
 	case <-r.Context().Done():
@@ -516,6 +532,47 @@ func runServerScenario(skipVerify bool, secretSpec string, cmds []string, w *os.
 			l.mu.Lock()
 			o += fmt.Sprintf(":cd=%v", l.tasks[t].ctxDoneAtEnd)
 			l.mu.Unlock()
+			ol.add(o)
+		case 'R':
+			f := strings.Split(arg, ":")
+			if len(f) != 2 {
+				return "BAD-CASE"
+			}
+			t, code := atoi(f[0]), atoi(f[1])
+			if taskState[t] != "handler" || code == 0 {
+				ol.add("R=noop")
+				continue
+			}
+			l.mu.Lock()
+			nw := len(l.writes)
+			l.mu.Unlock()
+			select {
+			case l.tasks[t].replyGo <- code:
+			case <-time.After(labWait):
+				ol.add("R=HANG")
+				return strings.Join(ol.toks, " ")
+			}
+			select {
+			case <-l.tasks[t].replied:
+			case <-time.After(labWait):
+				ol.add("R=HANG")
+				return strings.Join(ol.toks, " ")
+			}
+			l.mu.Lock()
+			ws := append([]string{}, l.writes[nw:]...)
+			l.mu.Unlock()
+			o := "R=sent"
+			if len(ws) == 0 {
+				o = "R=noop"
+			}
+			for _, w := range ws {
+				parts := strings.SplitN(w, ":", 2)
+				raw := unhx(parts[1])
+				sec := secrets[l.tasks[t].peer]
+				auth := len(raw) >= 20 && len(reqWire[t]) >= 20 && len(sec) > 0 &&
+					bytes.Equal(md5sum(raw[:4], reqWire[t][4:20], raw[20:], sec), raw[4:20])
+				o += fmt.Sprintf(":%s:conn%d:auth=%v:code=%d", parts[0], taskConn[t], auth, raw[0])
+			}
 			ol.add(o)
 		case 'X':
 			j := atoi(arg)
@@ -1074,6 +1131,16 @@ func genC06(g *Gen, tier string, emit func(op string, args ...string)) {
 		emit("dups", itoa(g.Pick(2, 3, 5, 8, 16)))
 	}
 	emit("nilcfg", "-")
+	// a handler that answers first and goes on working: the request stays in flight until the handler RETURNS - a
+	// retransmission that arrives after the reply is still a duplicate, and the identifier is served again afterwards
+	{
+		d := hx(accessRequest(21))
+		e := hx(accountingRequest(22, []byte("s")))
+		sc := func(cmds ...string) { emit("scenario", "0", secrets, strings.Join(append(cmds, "Z"), ",")) }
+		sc("S0", "s0", "D0:0:"+d, "d0", "R0:2", "D0:0:"+d, "d1", "F0:0", "D0:0:"+d, "d2", "F2:2")
+		sc("S0", "s0", "D0:0:"+d, "d0", "R0:2", "R0:3", "D0:0:"+d, "d1", "D0:0:"+e, "d2", "R2:5", "D0:0:"+e, "d3", "F2:0", "F0:2", "D0:0:"+e, "d4", "F4:5")
+		sc("S0", "s0", "D0:0:"+d, "d0", "R0:2", "X0", "x0", "D0:0:"+d, "F0:0", "e0", "W0")
+	}
 	// directed: two or three requests from DIFFERENT peers (and from one peer with different identifiers)
 	// in flight on one Serve call; the handlers reply in every order — each reply must go to its own
 	// request's source
